@@ -67,7 +67,7 @@ impl TraitHandler for DerefMutStructHandler {
 
             let field_name = IdentOrIndex::from_ident_with_index(field.ident.as_ref(), index);
 
-            deref_mut_token_stream.extend(if let Type::Reference(_) = &field.ty {
+            deref_mut_token_stream.extend(if let Type::Reference(_) = crate::common::r#type::ungroup(&field.ty) {
                 quote! (self.#field_name)
             } else {
                 quote! (&mut self.#field_name)
